@@ -242,7 +242,7 @@ func init() {
 			"thorough": "same",
 		},
 		Assume:  driverAssume,
-		Outside: []string{"stream interceptors and streaming shapes through the drivers (unary only)", "proxied handlers over a real backend", "WebSocket stats (D28 by reading: End carries the upgrade error instead of the handler error)", "the relational 'options never change the outcome' clause is discharged by asserting the same client-visible oracle under every option combination"},
+		Outside: []string{"proxied handlers over a real backend", "WebSocket stats (D28 by reading: End carries the upgrade error instead of the handler error)", "the relational 'options never change the outcome' clause is discharged by asserting the same client-visible oracle under every option combination"},
 	})
 	addProp(&PropSpec{
 		ID: "C09",
@@ -309,4 +309,9 @@ func init() {
 		HarnessSpec{Name: "VerifH_registry", Covers: []string{"failed-registration", "register-local-twice"}})
 	ext("C19", "config-rule vs annotation: 3 rule shapes x every ASCII path of 1..8 bytes x {GET, POST}, two muxes built through NewMux(ServiceConfigOption) + registerService vs annotation + registerService",
 		HarnessSpec{Name: "VerifH_config_vs_annotation", Covers: []string{"dispatched", "dispatched-by-rule", "not-dispatched"}})
+
+	ext("C06", "gRPC bidirectional stream through serveGRPC: k<=2 request frames of 0..2 symbolic bytes, every partition of bodies <=6 bytes into reads (greedy chunks beyond), truncation of the last 1..2 bytes, j<=2 reply frames",
+		HarnessSpec{Name: "VerifH_serveGRPC_stream", Covers: []string{"clean-eof", "truncated", "replies"}})
+	ext("C18", "stream interceptor and per-message stats on a bidirectional gRPC stream (k<=2 in, j<=2 out)",
+		HarnessSpec{Name: "VerifH_serveGRPC_stream", Covers: []string{"interceptor", "stats"}})
 }
